@@ -58,6 +58,13 @@ type Prelude struct {
 	Tier    string `json:"tier"`
 	Indices []int  `json:"indices"`
 	Repeat  int    `json:"repeat,omitempty"` // execute the whole list this many times (default 1)
+	// First and Stride describe the worker whose history this is (it executed
+	// runs First, First+Stride, ...).  A worker executes every 64th of its runs
+	// twice (the determinism recheck); with Stride set the prelude does the same,
+	// so that state which depends on how often something ran — or on what the
+	// allocator and the garbage collector did meanwhile — builds up the same way.
+	First  int `json:"first,omitempty"`
+	Stride int `json:"stride,omitempty"`
 }
 
 // RunPrelude executes the prelude runs (results ignored).
@@ -71,7 +78,11 @@ func RunPrelude(e Engine, s *Script, exec func(*Script)) {
 	}
 	for ; rep > 0; rep-- {
 		for _, idx := range s.Prelude.Indices {
-			exec(GenScript(e, s.Prelude.Batch, idx, s.Prelude.Tier))
+			p := GenScript(e, s.Prelude.Batch, idx, s.Prelude.Tier)
+			exec(p)
+			if st := s.Prelude.Stride; st > 0 && idx >= s.Prelude.First && ((idx-s.Prelude.First)/st)%64 == 0 {
+				exec(GenScript(e, s.Prelude.Batch, idx, s.Prelude.Tier))
+			}
 		}
 	}
 }
